@@ -17,6 +17,7 @@ import (
 	"rare/pkg/extractor"
 	"rare/pkg/extractor/batchers"
 	"rare/pkg/matchers"
+	"rare/pkg/matchers/dissect"
 	"rare/pkg/matchers/fastregex"
 
 	. "verifh/lib"
@@ -59,6 +60,8 @@ func main() {
 			nl := r.Intn(400)
 			if c%4 == 0 {
 				nl = 20000 + r.Intn(20000) // long enough for the 100 ms ticker to render while matches are sampled
+			} else if c%4 == 2 {
+				nl = 4000 + r.Intn(4000) // enough batches for several workers to be inside the dissect matcher at once
 			} else if c%2 == 1 {
 				nl = 1500 + r.Intn(1500) // enough batches for the workers to overlap inside the helper library
 			}
@@ -100,6 +103,18 @@ func main() {
 				os.Exit(1)
 			}
 			matcher = matchers.ToFactory(fr)
+			workers = 2 + r.Intn(7)
+		}
+		if c%4 == 2 {
+			// a dissect matcher: its instances own a pool of index slices and must be per worker; the
+			// lines' field offsets vary, so offsets taken from another worker's line do not fit
+			dm, derr := dissect.Compile("k%{k} v%{v}")
+			if derr != nil {
+				fmt.Println("matcher:", derr)
+				os.Exit(1)
+			}
+			matcher = matchers.ToFactory(dm)
+			extract = Pick(r, []string{"{k}:{v}", "{2}-{1}", "{0}"})
 			workers = 2 + r.Intn(7)
 		}
 		ex, err := extractor.New(batcher.BatchChan(), &extractor.Config{
